@@ -457,18 +457,17 @@ impl<'a, R: Clone> AsyncGlobalCache<'a, R> {
 
         let mut order = self.order.lock();
 
-        // Check if another task already inserted this key while we were computing
-        if self.is_already_key_inserted(key, &mut order) {
-            return;
+        // A key that is already stored is replaced in place (see `is_already_key_inserted`):
+        // the cache does not grow, so nothing has to be evicted for it
+        if !self.is_already_key_inserted(key, &mut order) {
+            // Handle entry-count limits
+            self.handle_entry_limit_eviction(&mut order);
         }
-
-        // Handle entry-count limits
-        self.handle_entry_limit_eviction(&mut order);
 
         // Add the new entry to the order queue
         order.push_back(key.to_string());
 
-        // Insert into cache with frequency initialized to 0
+        // Insert into cache with frequency initialized to 0 (atomically replaces an old entry)
         self.cache.insert(key.to_string(), (value, timestamp, 0));
     }
 
@@ -476,27 +475,27 @@ impl<'a, R: Clone> AsyncGlobalCache<'a, R> {
     ///
     /// The new value must replace the old one (exactly like the sync caches do), otherwise a
     /// result recomputed after `invalidate_on` reported the entry stale would be discarded and
-    /// the stale value served again. The old entry and its position in the eviction queue are
-    /// dropped here; the caller then continues as for a fresh key (eviction checks, queue push,
-    /// store with a new timestamp and frequency 0).
+    /// the stale value served again. The replacement must also be atomic for concurrent
+    /// lookups: the old entry is NOT removed here (a lookup between a removal and the later
+    /// store would miss and recompute a result that has already been cached); only its position
+    /// in the eviction queue is dropped, and the caller's final `DashMap::insert` overwrites the
+    /// entry with the new value, a new timestamp and frequency 0.
     ///
     /// # Parameters
     /// - `key`: A reference to the key being checked as a `&str`.
     /// - `order`: A mutable reference to the locked eviction queue.
     ///
     /// # Returns
-    /// Always `false`: the caller has to perform the insertion.
+    /// `true` if the key is currently stored (the store is a replacement, the cache does not
+    /// grow), `false` otherwise.
     fn is_already_key_inserted(
         &self,
         key: &str,
         order: &mut MutexGuard<RawMutex, VecDeque<String>>,
     ) -> bool {
         if self.cache.contains_key(key) {
-            // Key already exists: the new value must replace it (as in the sync caches).
-            // Drop the old entry and its queue position; the caller then stores the new
-            // value as a fresh entry, so a refreshed result is never shadowed by a stale one.
-            self.cache.remove(key);
             order.retain(|k| k != key);
+            return true;
         }
         false
     }
@@ -802,10 +801,8 @@ impl<'a, R: Clone + crate::MemoryEstimator> AsyncGlobalCache<'a, R> {
 
         let mut order = self.order.lock();
 
-        // Check if another task already inserted this key while we were computing
-        if self.is_already_key_inserted(key, &mut order) {
-            return;
-        }
+        // A key that is already stored is replaced in place (see `is_already_key_inserted`)
+        let replacing = self.is_already_key_inserted(key, &mut order);
 
         // Check memory limit first (if specified)
         if let Some(max_mem) = self.max_memory {
@@ -814,6 +811,10 @@ impl<'a, R: Clone + crate::MemoryEstimator> AsyncGlobalCache<'a, R> {
             // Safety check: if the value itself is larger than max_mem,
             // we need to handle it to avoid infinite loop
             if value_size > max_mem {
+                // The new value cannot be cached; the value it supersedes must not survive it
+                if replacing {
+                    self.cache.remove(key);
+                }
                 // Value is too large to fit in cache even when empty
                 // We have two options:
                 // 1. Don't cache it at all (skip insertion)
@@ -823,9 +824,11 @@ impl<'a, R: Clone + crate::MemoryEstimator> AsyncGlobalCache<'a, R> {
             }
 
             loop {
+                // The entry that is about to be replaced does not count
                 let current_mem: usize = self
                     .cache
                     .iter()
+                    .filter(|entry| !(replacing && entry.key() == key))
                     .map(|entry| entry.value().0.estimate_memory())
                     .sum();
 
@@ -892,8 +895,10 @@ impl<'a, R: Clone + crate::MemoryEstimator> AsyncGlobalCache<'a, R> {
             }
         }
 
-        // Handle entry-count limits (reuse the same method)
-        self.handle_entry_limit_eviction(&mut order);
+        // Handle entry-count limits (reuse the same method); a replacement does not grow the cache
+        if !replacing {
+            self.handle_entry_limit_eviction(&mut order);
+        }
 
         // Add the new entry to the order queue
         order.push_back(key.to_string());
